@@ -119,7 +119,7 @@ fn make_tree(ctx: &Ctx, tag: u64, case: &CliCase) -> std::io::Result<Scratch> {
     }
     for lp in &case.load_paths {
         if lp != "no-such-dir" && lp != "not-a-dir" {
-            let _ = std::fs::create_dir_all(dir.join(lp));
+            let _ = std::fs::create_dir_all(dir.join(lp.replace("{ROOT}/", "")));
         }
     }
     Ok(Scratch(dir))
@@ -133,14 +133,17 @@ fn run_cli(ctx: &Ctx, dir: &Path, case: &CliCase) -> Result<CliRun, String> {
     }
     let log = dir.join(".shimlog");
     let _ = std::fs::remove_file(&log);
+    // "{ROOT}" in an argument or a plan stands for the scratch directory of this execution
+    // (absolute spellings of INPUT and load paths); cases stay independent of where they run
+    let root = dir.to_string_lossy().into_owned();
     let mut cmd = Command::new(&bin);
-    cmd.args(&case.argv)
+    cmd.args(case.argv.iter().map(|a| a.replace("{ROOT}", &root)))
         .current_dir(dir)
         .env_clear()
         .env("LD_PRELOAD", &shim)
         .env("VERIF_SHIM_LOG", &log)
         .env("VERIF_SHIM_SEED", case.shim_seed.to_string())
-        .env("VERIF_FAULT_PLAN", &case.plan)
+        .env("VERIF_FAULT_PLAN", case.plan.replace("{ROOT}", &root))
         .stdin(if case.stdin.is_some() { Stdio::piped() } else { Stdio::null() })
         .stdout(Stdio::piped())
         .stderr(Stdio::piped());
@@ -184,7 +187,7 @@ fn run_cli(ctx: &Ctx, dir: &Path, case: &CliCase) -> Result<CliRun, String> {
             if f.len() >= 7 {
                 run.calls.push(ShimCall {
                     call: f[0].into(),
-                    class: f[1..f.len() - 5].join(" "),
+                    class: f[1..f.len() - 5].join(" ").replace(&root, "{ROOT}"),
                     nth: f[f.len() - 5].parse().unwrap_or(0),
                     req: f[f.len() - 4].parse().unwrap_or(0),
                     res: f[f.len() - 3].parse().unwrap_or(0),
@@ -207,10 +210,11 @@ fn reference(dir: &Path, case: &CliCase) -> (Outcome, Vec<crate::job::LogEvent>)
     spec.quiet = case.quiet;
     spec.unicode = case.unicode;
     spec.charset = case.charset;
-    spec.load_paths = case.load_paths.clone();
+    let root = dir.to_string_lossy().into_owned();
+    spec.load_paths = case.load_paths.iter().map(|l| l.replace("{ROOT}", &root)).collect();
     spec.eval_fuel = 0;
     spec.entry = match (&case.entry, &case.stdin) {
-        (Some(e), _) => Entry::Path(e.clone()),
+        (Some(e), _) => Entry::Path(e.replace("{ROOT}", &root)),
         (None, Some(s)) => match String::from_utf8(s.clone()) {
             Ok(t) => Entry::Text(t),
             Err(_) => Entry::Text("\u{0}<<invalid utf8 on stdin>>".into()),
@@ -384,7 +388,13 @@ fn gen_case(rng: &mut Rng, ctx: &Ctx, pools: &Pools) -> CliCase {
         // sometimes the library itself fails: an error raised in an imported file is an error all the same
         let tail = if lib_fails { format!("@error \"lib-{}-failed\";\n", d) } else { String::new() };
         files.push((format!("{}/_lib.scss", d), format!(".from-{} {{ n: {}; }}\n{}", d, i + 1, tail).into_bytes()));
-        load_paths.push(d);
+        // the same directory may be spelled in several ways
+        load_paths.push(match rng.below(10) {
+            0 => format!("./{}", d),
+            1 => format!("{{ROOT}}/{}", d),
+            2 => format!("{}/", d),
+            _ => d,
+        });
     }
     // load paths that cannot be used (missing directory, a plain file) never match and never hurt
     if n_lp > 0 && rng.chance(0.15) {
@@ -510,12 +520,21 @@ fn gen_case(rng: &mut Rng, ctx: &Ctx, pools: &Pools) -> CliCase {
         argv.extend(lp_args);
     }
     let mut entry = None;
+    let mut entry_file: Option<String> = None;
+    let mut dashdash = false;
+    let n_flag_args = argv.len();
     let mut stdin = None;
     let missing = !use_stdin && rng.chance(0.04);
     if use_stdin {
         argv.push("--stdin".into());
         // the same text may arrive with a byte-order mark or with CRLF line ends
         let mut t = text.clone();
+        // text from stdin has no directory of its own: relative imports start at the working directory
+        if rng.chance(0.2) {
+            files.push(("_sibling.scss".into(), b".sibling { of: cwd; }\n".to_vec()));
+            files.push(("src/_sibling.scss".into(), b".sibling { of: src; }\n".to_vec()));
+            t = format!("@import \"sibling\";\n{}", t);
+        }
         match rng.below(10) {
             0 => t = format!("{}{}", '\u{feff}', t),
             1 => t = t.replace('\n', "\r\n"),
@@ -536,11 +555,24 @@ fn gen_case(rng: &mut Rng, ctx: &Ctx, pools: &Pools) -> CliCase {
         if !missing {
             files.push((name.clone(), text.clone().into_bytes()));
         }
+        entry_file = Some(name.clone());
+        // the same file may be named in several ways: the spelling shows up in error locations
+        // and is where relative imports start, but it never changes what is compiled
+        let spelled = match rng.below(12) {
+            0 => format!("./{}", name),
+            1 => format!("{{ROOT}}/{}", name),
+            2 => {
+                files.push(("aux/.keep".into(), vec![]));
+                format!("aux/../{}", name)
+            }
+            _ => name.clone(),
+        };
         if rng.chance(0.1) {
             argv.push("--".into());
+            dashdash = true;
         }
-        argv.push(name.clone());
-        entry = Some(name);
+        argv.push(spelled.clone());
+        entry = Some(spelled);
     }
     let mut output = None;
     if rng.chance(0.35) && !use_stdin {
@@ -549,6 +581,11 @@ fn gen_case(rng: &mut Rng, ctx: &Ctx, pools: &Pools) -> CliCase {
             // not a regular file: a pipe reached through /dev/stdout, the null device
             6..=10 => "/dev/stdout".to_string(),
             11..=14 => "/dev/null".to_string(),
+            // a directory that is there
+            15..=22 => {
+                files.push(("outdir/.keep".into(), vec![]));
+                "outdir/out.css".to_string()
+            }
             _ => "out.css".to_string(),
         };
         argv.push(o.clone());
@@ -567,13 +604,20 @@ fn gen_case(rng: &mut Rng, ctx: &Ctx, pools: &Pools) -> CliCase {
         let bad = b"a { b: c; }\n\xff\xfe { d: e; }\n".to_vec();
         if let Some(si) = stdin.as_mut() {
             *si = bad;
-        } else if let Some(e) = &entry {
+        } else if let Some(e) = &entry_file {
             for f in files.iter_mut() {
                 if &f.0 == e {
                     f.1 = bad.clone();
                 }
             }
         }
+    }
+    // the positional arguments may come first (flags are accepted anywhere on the line)
+    if !dashdash && !use_stdin && rng.chance(0.15) {
+        let pos: Vec<String> = argv.split_off(n_flag_args);
+        let mut a2 = pos;
+        a2.extend(argv);
+        argv = a2;
     }
     CliCase { files, stdin, argv, entry, output, compressed, quiet, unicode: !no_unicode, charset: !no_charset, load_paths, plan: String::new(), shim_seed: 1 + rng.below(1 << 40) }
 }
